@@ -128,6 +128,7 @@ class Sched:
         assert _CURRENT is None or not _CURRENT.active, "nested sims"
         _CURRENT = self
         self.active = True
+        self._patched = patch_sedpack_globals()
         if self.trace_files and self.line_prob > 0:
             sys.settrace(self._tracer)
         return self
@@ -138,6 +139,9 @@ class Sched:
         self.shutdown()
         self.active = False
         _CURRENT = None
+        for mod, name, val in getattr(self, "_patched", ()):
+            setattr(mod, name, val)
+        self._patched = []
         return False
 
     def shutdown(self) -> None:
@@ -808,6 +812,58 @@ def make_threading_module() -> types.ModuleType:
 
 def make_time_module():
     return _SimTime()
+
+
+_SHIM_CACHE: dict = {}
+
+
+def _shim_map() -> dict:
+    """id(real object) -> simulated stand-in, for every thread-related name a
+    sedpack module may hold in its globals."""
+    if _SHIM_CACHE:
+        return _SHIM_CACHE
+    import concurrent.futures as cf
+    from simlib import simexec
+    th, qu, fut = (make_threading_module(), make_queue_module(),
+                   simexec.make_futures_module())
+    pairs = [(_real_threading, th), (_real_queue, qu), (cf, fut)]
+    for name in ("Thread", "Lock", "RLock", "Event", "Condition", "Semaphore",
+                 "BoundedSemaphore"):
+        pairs.append((getattr(_real_threading, name), getattr(th, name)))
+    for name in ("Queue", "SimpleQueue", "LifoQueue", "PriorityQueue"):
+        pairs.append((getattr(_real_queue, name), getattr(qu, name)))
+    for name in ("ThreadPoolExecutor", "as_completed", "wait"):
+        pairs.append((getattr(cf, name), getattr(fut, name)))
+    for real, sim in pairs:
+        _SHIM_CACHE[id(real)] = (real, sim)
+    return _SHIM_CACHE
+
+
+def patch_sedpack_globals() -> list:
+    """While a simulation is active every loaded sedpack module sees the
+    simulated `threading`, `queue` and `concurrent.futures` (and the names
+    imported from them) in its globals, so threads, locks, events and pools
+    that *any* of its functions creates - in the pinned form or after somebody
+    added one - are tasks and yield points of the scheduler.  (Names are
+    resolved at call time; class bases were fixed at import, which is why
+    lazy_pool.py and dataset_iteration.py are additionally re-executed.)
+    Returns the list of (module, name, original) to restore."""
+    shim = _shim_map()
+    undo = []
+    for modname, mod in list(sys.modules.items()):
+        if mod is None or not (modname == "sedpack" or
+                               modname.startswith("sedpack.")):
+            continue
+        try:
+            items = list(vars(mod).items())
+        except TypeError:
+            continue
+        for name, val in items:
+            hit = shim.get(id(val))
+            if hit is not None and hit[0] is val:
+                undo.append((mod, name, val))
+                setattr(mod, name, hit[1])
+    return undo
 
 
 def load_module_under_shims(path: str, name: str,
